@@ -102,7 +102,7 @@ func buildWorkerNoLock(flavour string) string {
 	os.MkdirAll(dir, 0o755)
 	args := []string{"-repo", repoDir, "-out", dir}
 	switch {
-	case flavour == "plain":
+	case flavour == "plain", flavour == "plain-race":
 		args = append(args, "-plain")
 	case strings.HasPrefix(flavour, "instr-w"):
 		args = append(args, "-workers", strings.TrimPrefix(flavour, "instr-w"))
@@ -123,8 +123,12 @@ func buildWorkerNoLock(flavour string) string {
 		fatal("instrumenting (%s): %v\n%s", flavour, err, out)
 	}
 	bin := filepath.Join(dir, "vworker")
-	cmd = exec.Command("go", "build", "-tags", "verif", "-overlay", filepath.Join(dir, "overlay.json"),
-		"-ldflags", "-X verif/vsched.Flavour="+flavour, "-o", bin, "./cmd/vworker")
+	bargs := []string{"build", "-tags", "verif", "-overlay", filepath.Join(dir, "overlay.json"),
+		"-ldflags", "-X verif/vsched.Flavour=" + flavour, "-o", bin}
+	if flavour == "plain-race" {
+		bargs = append(bargs, "-race")
+	}
+	cmd = exec.Command("go", append(bargs, "./cmd/vworker")...)
 	cmd.Dir = verifDir
 	cmd.Env = env()
 	out, err = cmd.CombinedOutput()
@@ -280,7 +284,7 @@ func runJobs(meta propMeta, tier string, only string) []*jobResult {
 				args := []string{"run", "--prop", meta.ID, "--part", job.Part, "--tier", tier, "--shard", fmt.Sprint(s), "--nshards", fmt.Sprint(job.Shards),
 					"--budget", fmt.Sprint(job.BudgetS), "--seed", seed, "--args", strings.Join(kv, ","), "--out", outf}
 				cmd := exec.Command(bin, args...)
-				cmd.Env = append(env(), fmt.Sprintf("GOMAXPROCS=%d", procs), "GOTRACEBACK=all")
+				cmd.Env = append(env(), fmt.Sprintf("GOMAXPROCS=%d", procs), "GOTRACEBACK=all", "GORACE=halt_on_error=1")
 				cmd.Dir = scratch
 				var buf bytes.Buffer
 				cmd.Stdout = &buf
@@ -290,6 +294,33 @@ func runJobs(meta propMeta, tier string, only string) []*jobResult {
 				var r reg.Result
 				if rerr == nil {
 					rerr = json.Unmarshal(b, &r)
+				}
+				if strings.Contains(buf.String(), "WARNING: DATA RACE") {
+					// the race detector fired in a free-running pass: that is a violation of the property whose
+					// harness produced it (the exhaustive schedule claim assumes synchronisation points suffice)
+					rep := buf.String()
+					if i := strings.Index(rep, "WARNING: DATA RACE"); i >= 0 {
+						rep = rep[i:]
+					}
+					if len(rep) > 4000 {
+						rep = rep[:4000]
+					}
+					key := "race"
+					for _, l := range strings.Split(rep, "\n") {
+						l = strings.TrimSpace(l)
+						if strings.HasPrefix(l, "/repo/") || strings.HasPrefix(l, repoDir+"/") {
+							if j := strings.Index(l, " "); j > 0 {
+								l = l[:j]
+							}
+							key = "race:" + filepath.Base(l)
+							break
+						}
+					}
+					r := reg.NewResult(job.Part)
+					r.Evaluations = 1
+					r.Violate(meta.ID, key, "data race reported by the race detector in the free-running pass:\n"+rep, nil, nil)
+					shardRes[s] = r
+					return
 				}
 				if err != nil || rerr != nil {
 					tail := buf.String()
@@ -387,7 +418,7 @@ func main() {
 		os.Exit(replay(pos[1]))
 	case "warm":
 		var wg sync.WaitGroup
-		for _, f := range []string{"plain", "instr", "instr-w2", "instr-w3"} {
+		for _, f := range []string{"plain", "instr", "instr-w2", "instr-w3", "plain-race"} {
 			f := f
 			wg.Add(1)
 			go func() { defer wg.Done(); buildWorkerNoLock(f) }()
